@@ -595,7 +595,86 @@ LAYOUTS = {4: [(1, 2, 4), (2, 2, 4), (1, 1, 2), (2, 2, 2)],
            12: [(2, 3, 4), (1, 3, 6), (2, 6, 12), (3, 4, 6), (4, 4, 4)]}
 
 
-def snap_ops(rng, n_plain, n_task):
+def writer_block_sizes():
+    """the cell-block size(s) the writer uses when it streams a (sub)grid into the datasets"""
+    src = open(os.path.join(vlib.REPO, "src", "GadgetDensityGridWriter.cpp"), encoding="utf-8").read()
+    bs = sorted({int(x) for x in re.findall(r"\bblocksize\s*=\s*(\d+)\s*;", src)})
+    return [b for b in bs if 8 <= b <= 200000] or [10000]
+
+
+_DIMS_CACHE = {}
+
+
+def subgrid_dims(target, mode, cmax=128):
+    """(a, b, c), a <= b <= c <= cmax, with a*b*c == target ('eq'), the largest product < target
+    ('below') or the smallest product > target ('above'); None if there is none"""
+    key = (target, mode, cmax)
+    if key in _DIMS_CACHE:
+        return _DIMS_CACHE[key]
+    best = None
+    for a in range(1, cmax + 1):
+        if a * a * a > target * 2:
+            break
+        for b in range(a, cmax + 1):
+            if a * b * b > target * 2:
+                break
+            lo = max(b, (target // (a * b)) - 1)
+            for c in range(lo, min(cmax, lo + 3) + 1):
+                p = a * b * c
+                if mode == "eq" and p == target:
+                    cand = (0, -a)          # prefer the most cubic shape
+                elif mode == "below" and p < target:
+                    cand = (target - p, -a)
+                elif mode == "above" and p > target:
+                    cand = (p - target, -a)
+                else:
+                    continue
+                if best is None or cand < best[0]:
+                    best = (cand, (a, b, c))
+    _DIMS_CACHE[key] = best[1] if best else None
+    return _DIMS_CACHE[key]
+
+
+def big_subgrid_ops(rng, thorough):
+    """task-based layouts whose subgrids are written in MORE THAN ONE block of the writer: cell
+    counts per subgrid just below / exactly / just above one and two blocks (sizes derived from the
+    block size found in the writer), and cubic grids (both readers) whose subgrids hold a
+    non-integer number of blocks"""
+    ops = []
+
+    def op(n, g, cell, buf):
+        anchor = [cell * rng.choice([0.0, -1.0, 2.0, -0.5 * n[k]]) for k in range(3)]
+        sides = [cell * n[k] for k in range(3)]
+        ops.append("snapb %d %d %d %d %d %d %s %s %d %d" % (n[0], n[1], n[2], g[0], g[1], g[2], " ".join(str(vlib.f2bits(a)) for a in anchor),
+                                                           " ".join(str(vlib.f2bits(x)) for x in sides), buf, rng.getrandbits(40)))
+    for B in writer_block_sizes():
+        # cubic: smallest even n with n^3/2 cells per subgrid > B (and > 2B in thorough): both readers
+        for mult in ([1, 2] if thorough else [1]):
+            n = 2
+            while n ** 3 // 2 <= mult * B:
+                n += 2
+            axes = [0, 1, 2] if thorough else [2, 0]
+            for ax in axes:
+                g = [1, 1, 1]
+                g[ax] = 2
+                # buffer of one subgrid only when the global cell order crosses the subgrid boundary once
+                op([n, n, n], g, rng.choice([1.0, 0.25, 2.0]), 1 if ax == 0 else 2)
+        targets = [(B, "eq"), (B, "above"), (2 * B, "above"), (B, "below"), (2 * B, "eq"), (2 * B, "below")]
+        for (t, mode) in (targets if thorough else targets[:3]):
+            d = subgrid_dims(t, mode)
+            if d is None:
+                continue
+            for ax in ([0, 1, 2] if thorough else [rng.randrange(3)]):
+                perm = list(d)
+                rng.shuffle(perm)
+                g = [1, 1, 1]
+                g[ax] = 2
+                n = [perm[k] * g[k] for k in range(3)]
+                op(n, g, rng.choice([1.0, 0.25]), 1)
+    return ops
+
+
+def snap_ops(rng, n_plain, n_task, thorough=False):
     """`snap`: legacy Cartesian grid -> CMacIonizeSnapshotDensityFunction;
     `snapb`: task-based grid (DensitySubGridCreator) -> both readers.  For `snapb` the per-subgrid
     cell counts differ in x, y and z in every ordering, and the buffer is smaller than the number
@@ -620,9 +699,10 @@ def snap_ops(rng, n_plain, n_task):
         anchor = [side * rng.choice([0.0, -0.5, -1.0, 0.5, 1.5, 2.0]) for _ in range(3)]
         nsub = g[0] * g[1] * g[2]
         buf = rng.randint(1, max(1, nsub - 1))
-        ops.append("snapb %d %d %d %d %s %d %d %d" % (n, g[0], g[1], g[2], " ".join(str(vlib.f2bits(a)) for a in anchor),
-                                                     vlib.f2bits(side), buf, rng.getrandbits(40)))
-    return ops
+        sb = str(vlib.f2bits(side))
+        ops.append("snapb %d %d %d %d %d %d %s %s %d %d" % (n, n, n, g[0], g[1], g[2], " ".join(str(vlib.f2bits(a)) for a in anchor),
+                                                           " ".join([sb, sb, sb]), buf, rng.getrandbits(40)))
+    return ops + big_subgrid_ops(rng, thorough)
 
 
 def snapshot_experiment(ctx):
@@ -643,13 +723,15 @@ def snapshot_experiment(ctx):
             # the writer/reader sources no longer build: the clause can no longer be exercised
             ctx.broken_obligation("HDF5 snapshot experiment (harness c20_snap + engine library) does not build against the current tree", msg[-3000:])
         return
-    ops = snap_ops(ctx.rng, ctx.budget(3, 150), ctx.budget(6, 120))
+    ops = snap_ops(ctx.rng, ctx.budget(3, 150), ctx.budget(6, 120), ctx.thorough)
     rc, out, err = vlib.run_exe(exe, "\n".join(ops) + "\n", timeout=1200)
     ans, orc = vlib.split_oracle(out)
     ctx.cov["snapshot_experiment"] = {"grids": len(ops), "legacy_grids": len([o for o in ops if o.startswith("snap ")]),
-                                      "task_based_grids_both_readers": len([o for o in ops if o.startswith("snapb")]),
+                                      "task_based_grids": len([o for o in ops if o.startswith("snapb")]),
+                                      "task_based_grids_both_readers": len([a for a in ans if "both-readers" in a]),
+                                      "writer_block_sizes": writer_block_sizes(),
                                       "answers": len(ans), "oracle_failures": len(orc), "rc": rc,
-                                      "max_rel_dev": max([float(a.split("maxrel=")[1]) for a in ans if "maxrel=" in a] or [0.0])}
+                                      "max_rel_dev": max([float(a.split("maxrel=")[1].split()[0]) for a in ans if "maxrel=" in a] or [0.0])}
     for o in orc:
         i = int(re.search(r"line=(\d+)", o).group(1)) - 1
         what = re.sub(r"line=\d+\s*", "", o[len("ORACLE"):]).strip()
@@ -663,7 +745,11 @@ def snapshot_experiment(ctx):
         ctx.count()
         w = o.split()
         ctx.branch("snapshot:" + w[0])
-        ctx.distinct(("snapshot", o), nontrivial=(w[0] == "snapb" and len({w[2], w[3], w[4]}) > 1))
+        ctx.distinct(("snapshot", o), nontrivial=(w[0] == "snapb" and len({w[4], w[5], w[6]}) > 1))
+        if w[0] == "snapb":
+            per = (int(w[1]) // int(w[4])) * (int(w[2]) // int(w[5])) * (int(w[3]) // int(w[6]))
+            B = writer_block_sizes()[-1]
+            ctx.branch("snapshot:subgrid-blocks=%s" % ("1" if per <= B else "2" if per <= 2 * B else "3+"))
 
 
 def readable(op):
